@@ -686,6 +686,12 @@ def iodata_molecule(rng, lmax=3, nshell=None, omit_unused_cart=False):
     for k in range(nshell or rng.randint(2, 4)):
         l = rng.randint(0, lmax)
         kind = "p" if (l >= 2 and rng.random() < 0.6) else "c"
+        if omit_unused_cart and lmax >= 2:
+            # always at least one angular momentum (d) that occurs as pure shells only
+            if k == 0:
+                l, kind = 2, "p"
+            elif l == 2:
+                kind = "p"
         ic = rng.randrange(natom)
         npr = rng.randint(1, 3)
         exps = []
